@@ -33,6 +33,10 @@ func VfC09ForwardCopy() {
 	f := fr.(*FrameV1)
 	oldApx := len(f.AppendixData())
 	c := f.Clone().(*FrameV1)
+	// an unmodified copy (the origin sends clones to all but its last link) offers the link writer the same margins
+	_, e0 := f.FrameDataWithMargins(12, 16)
+	_, e1 := c.FrameDataWithMargins(12, 16)
+	vf.Assert(e0 == nil && e1 == nil, "copy-lost-its-link-margins")
 	rec := vf.Int()
 	vf.Assume(rec >= 65 && rec <= vf.Param("R"))
 	vf.Assume(oldApx+rec <= frameV1AppendixLimit)
